@@ -83,6 +83,8 @@ def apply_overlay(tree, group, tier):
         # modules nested in non-mod files resolve #[path] relative to <file stem>/ ; use absolute
         with open(os.path.join(VERIF, src)) as f:
             htext = f.read().replace("@VERIF@", VERIF)
+        for k, v in group.get("subst", {}).items():
+            htext = htext.replace(k, v)
         with open(dst, "w") as f:
             f.write(htext)
         with open(os.path.join(tree, rel), "a") as f:
